@@ -189,6 +189,11 @@ def oracle(prop, run):
                 cause = "join-with-several-parents-on-the-taken-branch"
             elif "occurred in the past" in msg:
                 cause = "placement-in-the-past"
+            elif "Trying to allocate more than" in msg and any(
+                len({k.split(":")[0] for k in st["resource_requirements"]}) < len(st["resource_requirements"])
+                for p_ in world["workload"]["profiles"] for st in p_["execution_strategies"]
+            ):
+                cause = "strategy-with-overlapping-requirement-entries-refused-after-the-fit-check"
             else:
                 cause = "unclassified"
             yield (f"C05 run-aborted exc={obs['err']} cause={cause}", {"exc": obs.get("exc")})
@@ -389,6 +394,13 @@ def csv_reader_oracle(obs, world):
             if appeared:
                 yield ("C08 csvreader-lost-a-task", {"task": lab})
             continue
+        if any(len(r) > 7 and r[1] == "TASK_RELEASE" and r[7] == lab for r in rows):
+            if rt.release_time != t["release"] or rt.deadline != t["deadline"]:
+                yield ("C08 csvreader-task-release-or-deadline-wrong", {"task": lab, "reader": [rt.release_time, rt.deadline], "actual": [t["release"], t["deadline"]]})
+            if rt.name != t["name"] or rt.task_graph != t["graph"]:
+                yield ("C08 csvreader-task-identity-wrong", {"task": lab, "reader": [rt.name, rt.task_graph]})
+        if t["state"] in ("RUNNING",) + DONE and rt.start_time is not None and rt.start_time != t["start"]:
+            yield ("C08 csvreader-task-start-time-wrong", {"task": lab, "reader": rt.start_time, "actual": t["start"]})
         if bool(rt.cancelled) != (t["state"] == "CANCELLED"):
             yield ("C08 csvreader-task-cancelled-flag-wrong", {"task": lab, "reader": bool(rt.cancelled), "state": t["state"]})
         if t["state"] in DONE:
